@@ -168,3 +168,59 @@ def truth(x):
     if isinstance(x, z3.BoolRef):
         return x
     return bool(x)
+
+
+# --------------------------------------------------------------------------
+# bounded integer quantifier (emitted quantifier-free: goals are skolemised,
+# hypotheses are instantiated at the index terms occurring in the VC)
+# --------------------------------------------------------------------------
+
+_PH = [0]
+
+
+class Forall:
+    """forall j in [lo, hi): body(j)   (body: z3 Int term -> z3 Bool / list of z3 Bool)"""
+
+    def __init__(self, lo, hi, body, name="j"):
+        self.lo = lo if isinstance(lo, z3.ExprRef) else z3.IntVal(int(lo))
+        self.hi = hi if isinstance(hi, z3.ExprRef) else z3.IntVal(int(hi))
+        self.name = name
+        # the body is evaluated NOW, at the program point where the quantifier is written (the abstract state it
+        # reads is mutable), on a placeholder variable; instances are obtained by substitution
+        _PH[0] += 1
+        self._ph = z3.Int(f"{name}!ph{_PH[0]}")
+        b = body(self._ph)
+        if isinstance(b, (list, tuple)):
+            b = z3.And(*[_b(x) for x in b]) if b else z3.BoolVal(True)
+        self._frozen = _b(b)
+
+        self._inst = {}
+
+    def raw(self, t):
+        return z3.substitute(self._frozen, (self._ph, t))
+
+    def at(self, t):
+        k = t.get_id()
+        hit = self._inst.get(k)
+        if hit is None:
+            hit = (t, z3.Implies(z3.And(self.lo <= t, t < self.hi), self.raw(t)))
+            self._inst[k] = hit
+        return hit[1]
+
+
+def flatten_goal(goal):
+    """-> (plain z3 Bools, Foralls)"""
+    plain, qs = [], []
+
+    def rec(g):
+        if g is None:
+            return
+        if isinstance(g, Forall):
+            qs.append(g)
+        elif isinstance(g, (list, tuple)):
+            for x in g:
+                rec(x)
+        else:
+            plain.append(_b(g))
+    rec(goal)
+    return plain, qs
